@@ -454,7 +454,7 @@ pub fn run(ctx: &Ctx) -> i32 {
         no_restart: ctx.open_any("crash.after_manual_flush_or_clean_restart") || ctx.open_any("crash.store_after_compaction_and_restart"),
     };
     *EXCL.lock().unwrap() = Some(ex);
-    crate::props::c02::KNOWN_ID_REUSE.store(ctx.open_any("layout.segment_id_reuse"), std::sync::atomic::Ordering::Relaxed);
+    crate::props::c02::KNOWN_ID_REUSE.store(ctx.open_any("layout.stale_cache_after_id_reuse"), std::sync::atomic::Ordering::Relaxed);
     let wx = crate::props::c02::WhereExcl::from_ctx_any(ctx);
     let cases = ctx.tier.pick(96, 1500);
     let tier = ctx.tier;
